@@ -610,8 +610,11 @@ fn gen_line(rng: &mut Rng) -> Line {
         }
         // ---- expression-carrying commands (the expression is also checked against the model)
         72..=83 => {
-            let cmd = *rng.pick(&["var", "vard", "arg", "argd", "watch", "w", "watch +rw", "watch +w", "watch remove", "w r"]);
             let structured = rng.chance(2, 3);
+            // `watch remove <expr>` / `w r <expr>` only with well-formed expressions: when the mutated token list starts
+            // with a postfix (`. f`, `[..]`) the line `w r . f` is also the command `w` with the expression `r . f`
+            let cmd = if structured { *rng.pick(&["var", "vard", "arg", "argd", "watch", "w", "watch +rw", "watch +w", "watch remove", "w r"]) }
+                      else { *rng.pick(&["var", "vard", "arg", "argd", "watch", "w", "watch +rw", "watch +w"]) };
             let (e, special) = gen_structured(rng);
             let mut toks = tokens_of(&e);
             if !structured {
